@@ -118,3 +118,44 @@ CONTRACTS['efficiencies_agree_on_binary'] = Contract(
     ensures=[('efficiency_wei-equals-efficiency_bin', "result(0) == result(1)")])
 CONTRACTS['efficiencies_agree_on_binary'].source = SRC
 CONTRACTS['efficiencies_agree_on_binary'].callees = _EFF_CALLEES
+
+
+# ---- C15: cores are nested as k grows (kcore_bu) ------------------------------------------------------------------------------------------
+# Lemma over the proved contract of kcore_bu (contracts/core_c15.py), whose maximality clause holds for EVERY node set S that meets the bound
+# inside itself (S is a specification-level argument of the contract): the stub lets the caller choose S.  For the (k+1)-core B take S = {} ;
+# for the k-core A take S = the connected nodes of B: each of them has at least k+1 >= k neighbours inside that set, so it lies inside A.
+from contracts import core_c15 as _k
+
+
+def _setup_nest(eng, st):
+    n = z3.Int('n0c')
+    st.pc.append(n >= 1)
+    st.ghost['n0'] = n
+    st.env['CIJ'] = alloc(st, 2, z3.Const('C0', A2R), (n, n), REAL)
+    st.env['k'] = z3.Int('k_in')
+
+
+_KB = _k.CONTRACTS['kcore_bu']
+_NEST_CALLEES = {'kcore_bu': callee_from_clauses('kcore_bu', ['CIJ', 'k'], list(_KB.requires), [e for e in _KB.ensures if e[0] != 'argument-untouched'], [_M, ('int',)],
+                                                 ghosts={'n0': 'len(CIJ)', 'S': 'Scur'}, rebinds={'alive': ('bvec', 'n0')})}
+CONTRACTS['cores_are_nested_bu'] = Contract(
+    'corollary_src.distances', 'cores_are_nested_bu', ['CIJ', 'k'], setup=_setup_nest,
+    requires=[('bound-positive', 'k >= 1'), ('undirected', _N2 % "iff(CIJ[v, w] != 0, CIJ[w, v] != 0)")],
+    ghost_before={'B, kb = kcore_bu(*': "Scur = lam1(lambda q: False, n0)",
+                  'A, ka = kcore_bu(*': "Scur = lam1(lambda q: ccnt(B, q, n0) > 0, n0); assume(lemma_count_sub(B, CIJ, Scur, n0))"},
+    ensures=[('the-larger-core-lies-inside-the-smaller-one', _N2 % "implies(result(1)[v, w] != 0, result(0)[v, w] != 0)")])
+CONTRACTS['cores_are_nested_bu'].source = SRC
+CONTRACTS['cores_are_nested_bu'].callees = _NEST_CALLEES
+
+# directed k-cores (in- plus out-degree): no symmetry needed; S = the nodes of the (k+1)-core that keep a connection
+_KD = _k.CONTRACTS['kcore_bd']
+CONTRACTS['cores_are_nested_bd'] = Contract(
+    'corollary_src.distances', 'cores_are_nested_bd', ['CIJ', 'k'], setup=_setup_nest,
+    requires=[('bound-positive', 'k >= 1')],
+    ghost_before={'B, kb = kcore_bd(*': "Scur = lam1(lambda q: False, n0)",
+                  'A, ka = kcore_bd(*': "Scur = lam1(lambda q: ccnt(B, q, n0) + rcnt(B, q, n0) > 0, n0); assume(lemma_count_sub(B, CIJ, Scur, n0)); "
+                                        "check('both-ends-of-a-connection-of-the-larger-core-are-in-S', " + (_N2 % "implies(B[v, w] != 0, And(Scur[v], Scur[w], CIJ[v, w] != 0))") + ")"},
+    ensures=[('the-larger-core-lies-inside-the-smaller-one', _N2 % "implies(result(1)[v, w] != 0, result(0)[v, w] != 0)")])
+CONTRACTS['cores_are_nested_bd'].source = SRC
+CONTRACTS['cores_are_nested_bd'].callees = {'kcore_bd': callee_from_clauses('kcore_bd', ['CIJ', 'k'], list(_KD.requires), [e for e in _KD.ensures if e[0] != 'argument-untouched'], [_M, ('int',)],
+                                                                              ghosts={'n0': 'len(CIJ)', 'S': 'Scur'}, rebinds={'alive': ('bvec', 'n0')})}
